@@ -16,7 +16,6 @@ Public surface
 Nothing here imports mako.  hypothesis is imported lazily.
 """
 import ast
-import builtins
 import types
 
 # --------------------------------------------------------------------------------------------
@@ -1425,7 +1424,6 @@ class BlockGen:
         b, inner = self.body(sc, depth, loop, fn)
         b.append(_assign(v, risky))
         handlers = []
-        names = []
         for _ in range(1 + x.n(2)):
             en = self.new("ex") if x.chance(70) else None
             types_ = [x.pick(CAUGHT if self.on("keyerror_name") else CAUGHT[1:]) for _ in range(1 + x.n(2))]
